@@ -124,8 +124,10 @@ func TestVerifC36NativeRWMutex(t *testing.T) {
 		// a request waiting out its delay does not keep the others from coming to rest
 		th := New([]time.Duration{0, time.Second}, 1, 0)
 		th.Signal()
-		go th.Delay(context.Background())
+		ctx, cancel := context.WithCancel(context.Background())
+		go th.Delay(ctx)
 		verifC36Rest()
 		synctest.Wait()
+		cancel()
 	})
 }
